@@ -5,7 +5,7 @@
    (Low-Latency) a part of a listed or open segment or the preload hint - so what has left the
    window does not resolve any more, and at most SegmentCount segment URIs per stream resolve. *)
 From Coq Require Import List ZArith Bool.
-From GoHls Require Import Model.Mux Proofs.MuxStream Proofs.MuxLift Proofs.MuxWindow Proofs.MuxHistory Proofs.MuxPlaylist Proofs.MuxPaths Proofs.MuxResolve Proofs.MuxTableConv.
+From GoHls Require Import Model.Mux Proofs.MuxStream Proofs.MuxLift Proofs.MuxWindow Proofs.MuxHistory Proofs.MuxPlaylist Proofs.MuxPaths Proofs.MuxResolve Proofs.MuxTableConv Proofs.MuxLog Proofs.MuxLogStep Proofs.MuxSpanHist Proofs.MuxAuditAdds Proofs.MuxAuditAddsEx.
 Import ListNotations.
 Local Open Scope Z_scope.
 
@@ -54,3 +54,25 @@ Theorem c18_resolving_segments_are_listed : forall c m0 ops si id h,
               /\ Z.of_nat (length (st_segments s)) <= c_segcount (norm_cfg c).
 Proof. exact resolving_segments_are_listed. Qed.
 Print Assumptions c18_resolving_segments_are_listed.
+
+(* ---- Write level: the write SegmentMaxSize refuses returns the error and buffers nothing (fMP4 variants) ---- *)
+Theorem c18_refused_write_buffers_nothing : forall m ti ra pc smp0 m' e,
+  LI m -> fmp4WriteSample m ti ra pc smp0 = (m', Err e) ->
+  map tk_samples (m_tracks m') = map tk_samples (m_tracks m)
+  /\ length (m_streams m') = length (m_streams m)
+  /\ forall j sj, nth_error (m_streams m) j = Some sj ->
+       exists sj', nth_error (m_streams m') j = Some sj' /\ holds_same sj sj'.
+Proof. exact refused_write_buffers_nothing. Qed.
+Print Assumptions c18_refused_write_buffers_nothing.
+
+(* non-vacuity: a reachable state in which the URI of a listed segment and of a listed part resolve and that of an
+   unpublished segment does not; a history whose third write SegmentMaxSize (150 bytes) refuses *)
+Theorem c18_example_nonvacuous : exists m0 m1,
+  start ex_cfg = Ok m0 /\ start small_cfg = Ok m1
+  /\ (let m := mux_run m0 sp_ops in
+      (lookup (m_paths m) (KSeg 0 8), lookup (m_paths m) (KSeg 0 6), lookup (m_paths m) (KPart 0 3))
+      = (Some HStatic, None, Some HPart))
+  /\ map (fun k => snd (mux_step (mux_run m1 (firstn k sp_ops)) (nth k sp_ops (WWrite 0 (ex_au 0 true 0))))) [0; 1; 2]%nat
+     = [Ok tt; Ok tt; Err 2].
+Proof. exact retention_example. Qed.
+Print Assumptions c18_example_nonvacuous.
